@@ -119,6 +119,9 @@ fn record(report: &mut Report, def: &PairDef, case: &Case, info: &generate::GenI
     if st.option_strikes_with_3_or_more_decimals > 0 {
         report.cover_n("option_contract:strike_with_3_or_more_decimals", st.option_strikes_with_3_or_more_decimals);
     }
+    if st.one_sided_top_of_book > 0 {
+        report.cover_n("l1:one_sided_top_of_book", st.one_sided_top_of_book);
+    }
     if st.twin_sets_mapped > 0 {
         report.cover_n("twin:market_subscribed_under_two_keys", st.twin_sets_mapped);
     }
@@ -286,6 +289,7 @@ fn main() {
         report.require("option_contract:strike_with_3_or_more_decimals");
         report.require("validation_window:payloads_buffered_and_replayed");
         report.require("twin:market_subscribed_under_two_keys");
+        report.require("l1:one_sided_top_of_book");
     }
     report.notes.push("path: WebSocketSubMapper::map -> ExchangeTransformer::init -> ExchangeStream<WebSocketParser, in-memory stream, Transformer> fed with WsMessage::Text; Bitfinex ids remapped by BitfinexWebSocketSubValidator::validate against a loopback venue".into());
     std::process::exit(report.finish(args.out.as_deref()));
